@@ -134,6 +134,8 @@ def observe(c):
                 for fname, f, call in functions(in_log_domain, nonsingular):
                     extra = dict(alg=aname, fn=fname)
                     F = spectralfam.f_of_A(spec, f)
+                    if not np.all(np.isfinite(F)) or np.max(np.abs(F)) > 1e150:
+                        continue        # f(A) itself leaves the floating-point range (exp of an eigenvalue > 345)
                     scale = max(1.0, float(np.max(np.abs(F)))) * pc
                     krylov = aname in ("Lanczos", "Arnoldi")
                     rtol = ((5e-2 if krylov else 2e-2) if single else (1e-4 if krylov else 1e-7)) * scale
@@ -165,6 +167,8 @@ def observe(c):
                                   operand=what, blowup=bool(err > 1e8 * max(1.0, float(np.max(np.abs(e))))), **extra)
                                 break
                 # f(A) @ 0 = 0
+                if max(l.real for l in lams) > 345:
+                    continue            # exp(A) overflows: inf * 0
                 try:
                     z = np.asarray(cola.linalg.exp(A, alg) @ np.zeros(n, dtype=v.dtype))
                     if not np.all(np.isfinite(z)) or np.max(np.abs(z)) > 1e-12:
